@@ -16,3 +16,7 @@ import SpoxModel.Props.C01
 #print axioms C01.dropUnused_idempotent
 #print axioms C01.read_inputs_must_be_listed
 #print axioms C01.usedArgs_least
+#print axioms C01.later_mutations_irrelevant
+#print axioms C01.operands_are_contents_at_call
+#print axioms C01.aliasing_counterexample
+#print axioms C01.generated_sequence_parameters_exercised
